@@ -9,7 +9,7 @@ from ..core import Violation, library_exception
 
 META = {
     "level": "exploration",
-    "rule": ("stateful (hypothesis RuleBasedStateMachine): a file is chosen from a pool of six prepared files (4x4xN with "
+    "rule": ("stateful (hypothesis RuleBasedStateMachine): a file is chosen from a pool of nine prepared files (a single group of four inlines, a wide short cube, 4x4xN with "
              "two z-blocks, 64x64x4, 8x8x64, irregular, 2D, old format version); rules: open_reader(slot of 3, preload, "
              "chunk_cache_size in {1, 2, default}), close_reader, read(slot, any in-range call of any method), "
              "emu(any accessor expression; the seven accessors share one handle), emu_close, repeat_last, "
@@ -41,6 +41,12 @@ POOL = [
      "values": {"kind": "smooth", "vseed": 16}, "il": [1, 1], "xl": [1, 1], "z0": 0, "dz_us": 4000, "arrays": [189, 193]},
     {"kind": "spec", "family": "2d", "rate": 8, "blockshape": [1, 4, 1024], "shape": [11, 40], "version": "0.2.8",
      "values": {"kind": "gauss", "vseed": 17}, "z0": 0, "dz_us": 4000, "arrays": [1]},
+    # a single group of four inlines: the crossline sets of neighbouring block columns lie back to back in the file
+    {"kind": "spec", "family": "4x4", "rate": 4, "blockshape": [4, 4, 512], "shape": [4, 13, 30], "version": "0.2.8",
+     "values": {"kind": "gauss", "vseed": 18}, "il": [1, 1], "xl": [1, 1], "z0": 0, "dz_us": 4000, "arrays": [189, 193]},
+    # a wide, short cube: more block columns than a remote reader has workers
+    {"kind": "spec", "family": "4x4", "rate": 16, "blockshape": [4, 4, 128], "shape": [21, 26, 9], "version": "0.2.8",
+     "values": {"kind": "gauss", "vseed": 19}, "il": [100, 2], "xl": [7, 1], "z0": 0, "dz_us": 2000, "arrays": [189, 193]},
 ]
 
 _built = {}
@@ -66,6 +72,7 @@ class Executor:
         self.path, self.T = pool_file(file_k, ctx)
         self.readers = {}
         self.emu = None
+        self.files = []
 
     def step(self, st_):
         from seismic_zfp.read import SgzReader
@@ -74,7 +81,9 @@ class Executor:
         if op == "open":
             if st_["slot"] in self.readers:
                 self.readers.pop(st_["slot"]).close()
-            self.readers[st_["slot"]] = SgzReader(self.path, preload=st_["preload"], chunk_cache_size=st_["cache"])
+            # the file is named as a str, a pathlib.Path, a bytes path or handed over as an open file object
+            self.readers[st_["slot"]] = SgzReader(ops.in_form(self.path, st_.get("form", "str"), self.files),
+                                                  preload=st_["preload"], chunk_cache_size=st_["cache"])
             return None
         if op == "close":
             r = self.readers.pop(st_["slot"], None)
@@ -119,6 +128,11 @@ class Executor:
         if self.emu is not None:
             try:
                 self.emu.__exit__(None, None, None)
+            except Exception:
+                pass
+        for f in self.files:
+            try:
+                f.close()
             except Exception:
                 pass
 
@@ -191,9 +205,9 @@ def make_machine(ctx, state):
             else:
                 ctx.labels[st_["op"]] += 1
 
-        @rule(slot=st.integers(0, 2), preload=st.booleans(), cache=st.sampled_from([1, 2, None]))
-        def open_reader(self, slot, preload, cache):
-            self.do({"op": "open", "slot": slot, "preload": preload, "cache": cache})
+        @rule(slot=st.integers(0, 2), preload=st.booleans(), cache=st.sampled_from([1, 2, None]), form=st.sampled_from(ops.PATH_FORMS))
+        def open_reader(self, slot, preload, cache, form):
+            self.do({"op": "open", "slot": slot, "preload": preload, "cache": cache, "form": form})
 
         @precondition(lambda self: self.ex is not None and len(self.ex.readers) > 0)
         @rule(slot=st.integers(0, 2))
